@@ -2,7 +2,8 @@
    ByteRangeLockSet (Model.v); [wf], [compatible], [kind_at],
    [expected_kind], [p_step], [trace_ok], [valid_ops] are in Spec.v. *)
 From VF Require Import LockSet.Model LockSet.Spec LockSet.Proofs
-  LockSet.ProofsBase LockSet.ProofsSet LockSet.ProofsHist.
+  LockSet.ProofsBase LockSet.ProofsSet LockSet.ProofsHist LockSet.ProofsRound.
+From Coq Require Import List.
 From Coq Require Import Lia.
 Open Scope N_scope.
 
@@ -138,6 +139,24 @@ Theorem exclusion_per_byte : forall ops, valid_ops ops -> no_raw ops ->
     k1 = Shared /\ k2 = Shared.
 Proof. exact history_excl_bytes. Qed.
 Print Assumptions exclusion_per_byte.
+
+(* A round of simultaneous LOCK requests (the oracle of the concurrent
+   failing-input search harness/cmd/lockrace): whatever the order in which
+   LOCK requests of pairwise different owners take effect on the empty
+   table, two requests that were both granted do not conflict (different
+   owners, overlapping bytes, one of them exclusive). *)
+Theorem round_granted_never_conflict : forall rq,
+  Forall (fun r => rs r < re r) rq -> NoDup (map rown rq) ->
+  forall p q, In (p, true) (round nil rq) -> In (q, true) (round nil rq) ->
+    rown p <> rown q -> req_conflict p q = false.
+Proof. exact round_granted_compatible. Qed.
+Print Assumptions round_granted_never_conflict.
+
+(* non-vacuity: a round with a grant, a denial and a compatible shared grant *)
+Example round_example :
+  round nil (mkReq 1 true 3 5 :: mkReq 2 true 2 6 :: mkReq 3 false 7 9 :: nil)
+  = (mkReq 1 true 3 5, true) :: (mkReq 2 true 2 6, false) :: (mkReq 3 false 7 9, true) :: nil.
+Proof. vm_compute. reflexivity. Qed.
 
 (* The monitor link: the predicate Corr.v evaluates on implementation
    traces holds on every trace of the model. *)
